@@ -125,6 +125,7 @@ const canaryLen = 8
 type buffer struct {
 	arena []byte
 	n     int
+	want  []byte // what the caller last put there: the library must never change it, not even later
 }
 
 func newBuffer(content []byte) *buffer {
@@ -133,7 +134,7 @@ func newBuffer(content []byte) *buffer {
 		a[i] = 0xA5
 	}
 	copy(a[canaryLen:], content)
-	return &buffer{arena: a, n: len(content)}
+	return &buffer{arena: a, n: len(content), want: append([]byte(nil), content...)}
 }
 
 func (b *buffer) data() []byte { return b.arena[canaryLen : canaryLen+b.n : len(b.arena)] }
@@ -483,12 +484,12 @@ func (h *hist) opCall() {
 	input := h.readRecord(ty, fault, rec)
 	stub := 0
 	if !h.clean && (entry == EUnmarshalText || entry == EUnmarshalJSON) && t.Bool(1, 6) {
-		stub = 1 + t.Choose(2) // 1 = (garbage, error), 2 = (value, nil)
+		stub = 1 + t.Choose(3) // 1 = (garbage, error), 2 = (value, nil), 3 = (a value no default parser would produce, nil)
 	}
 	var scanSrc interface{}
 	scanKind := 0
 	if entry == EScan {
-		scanKind = t.Choose(13)
+		scanKind = t.Choose(14)
 		if h.clean {
 			scanKind = t.Choose(2)
 		}
@@ -537,6 +538,21 @@ func (h *hist) opCall() {
 		case 12:
 			var pd *date.Date
 			scanSrc = pd
+		case 13:
+			// what a database hands over for "infinity", a BC date or a corrupt row: years at
+			// and beyond the edges of what the text form can express, in UTC and in a zone
+			// that moves the instant across the year boundary
+			years := [...]int{0, -1, -4712, 1, 9999, 10000, 10001, 32767, 32768, 294276, 292277026596}
+			y := years[t.Choose(len(years))]
+			loc := time.UTC
+			if t.Bool(1, 3) {
+				loc = scanZone
+			}
+			if t.Bool(1, 2) {
+				scanSrc = time.Date(y, time.December, 31, 23, 59, 59, 0, loc)
+			} else {
+				scanSrc = time.Date(y, time.January, 1, 0, 0, 0, 0, loc)
+			}
 		}
 	}
 	garbage := t.Word() | 1
@@ -633,6 +649,9 @@ func (h *hist) opCall() {
 	if !buf.canaryIntact() {
 		h.res.Probes.Inc("canary_damaged_outside_len")
 	}
+	if h.checkOldBuffers(name) {
+		return
+	}
 	// A: failure atomicity
 	if failed {
 		h.res.Extra.Inc("failing_calls")
@@ -722,11 +741,34 @@ func restoreParsers() {
 }
 
 // installStub replaces the package's Parser for one call: kind 1 returns a garbage value
-// together with an error, kind 2 returns a value and nil.
+// together with an error, kind 2 returns a value and nil, kind 3 returns nil and a value
+// outside what the default parser can produce (a lenient custom parser: the seam is public).
 func (h *hist) installStub(ty, kind int, g uint64) {
 	var e error
 	if kind == 1 {
 		e = errInjected
+	}
+	if kind == 3 {
+		switch ty {
+		case TDate:
+			date.Parser = func([]byte, date.Rule) (date.Date, error) { return date.Date{}, nil }
+		case TRoman:
+			roman.Parser = func([]byte, roman.Rule) (roman.Number, error) { return roman.Number(g | 1<<40), nil }
+		case TSem:
+			v := sem.Ver{Major: g, Minor: g >> 7, Patch: g >> 13, PreRelease: "not valid!", Build: "sp ace"}
+			if g&2 != 0 {
+				v.PreRelease = "01" // numeric identifier with a leading zero
+			}
+			if g&4 != 0 {
+				v.PreRelease, v.Build = "", "caf\u00e9"
+			}
+			sem.Parser = func([]byte, sem.Rule) (sem.Ver, error) { return v, nil }
+		case TSize:
+			size.Parser = func([]byte, size.Rule) (size.Size, error) { return size.Size(^uint64(0)), nil }
+		case TUU:
+			uu.Parser = func([]byte, uu.Rule) (uu.ID, error) { return uu.ID{}, nil }
+		}
+		return
 	}
 	switch ty {
 	case TDate:
@@ -790,6 +832,26 @@ func (h *hist) makeInputs(content []byte) (*inputs, *buffer, *buffer) {
 
 var instNames = [4]string{"string", "[]byte", "named-string", "named-bytes"}
 
+// checkOldBuffers is B for the buffers of earlier calls: the caller still owns them, and a
+// library that kept a reference to one (in a pool, a cache, a scratch variable) and writes
+// through it during a later call modifies bytes it was given. It returns true if the history
+// is to stop.
+func (h *hist) checkOldBuffers(name string) bool {
+	for _, b := range h.pool {
+		d := b.arena[canaryLen : canaryLen+b.n]
+		if bytes.Equal(d, b.want) {
+			continue
+		}
+		h.res.Probes.Inc("earlier_buffer_modified")
+		stop := h.violate("B-input-modified", name+"/earlier-buffer", fmt.Sprintf("during %s a buffer that had been handed to an earlier call changed from %q to %q: the library kept a reference to its caller's bytes and wrote through it", name, clip(b.want), clip(d)))
+		b.want = append(b.want[:0], d...)
+		if stop {
+			return true
+		}
+	}
+	return false
+}
+
 // afterParsers applies B and D to the four outcomes and puts the byte-backed results into the bag.
 func (h *hist) afterParsers(name, extra string, out [4]pres, preIn []byte, in *inputs, bufs []*buffer, fault int) {
 	// B on all four inputs (strings too: a parser that writes through unsafe is no better)
@@ -802,6 +864,9 @@ func (h *hist) afterParsers(name, extra string, out [4]pres, preIn []byte, in *i
 		if !b.canaryIntact() {
 			h.res.Probes.Inc("canary_damaged_outside_len")
 		}
+	}
+	if h.checkOldBuffers(name) {
+		return
 	}
 	anyPanic := false
 	for i := range out {
@@ -996,6 +1061,7 @@ func (h *hist) opScribble() {
 				}
 			}
 		}
+		b.want = append(b.want[:0], d...)
 	}
 	h.res.Faults.Add("buffer_scribbled", int64(k))
 	h.res.Probes.Inc("scribble_then_check")
